@@ -99,7 +99,7 @@ func plans(c *core.Ctx, m Modes) []Plan {
 	p.Kinds = []Ev{ks0, co0, ks(1, 5, 3, 2), ks(2, 6, 4, 2), co(1, 5, 2)}
 	p.MaxPerBlock, p.Pos = 2, []int{0, 1}
 	p.Faults = cat(fk("crash"), fk("crashc"), fk("err", "upd"))
-	p.MaxBlocks, p.MaxEvents, p.MaxFaults, p.MaxStops, p.MaxCatch, p.Replay = pick(3, 4), pick(2, 3), 1, pick(0, 1), pick(0, 1), pick(200, 2500)
+	p.MaxBlocks, p.MaxEvents, p.MaxFaults, p.MaxStops, p.MaxCatch, p.Replay = pick(3, 4), 2, 1, pick(0, 1), 0, pick(200, 2500)
 	ps = append(ps, p)
 
 	p = base
@@ -135,7 +135,7 @@ func plans(c *core.Ctx, m Modes) []Plan {
 		p.Kinds = p.Kinds[:27]
 	}
 	p.MaxOnce = 1
-	p.MaxBlocks, p.MaxEvents, p.MaxStops, p.MaxCatch, p.Replay, p.Par = pick(4, 5), pick(2, 3), pick(0, 1), pick(0, 1), pick(300, 3000), 48
+	p.MaxBlocks, p.MaxEvents, p.MaxStops, p.MaxCatch, p.Replay, p.Par = 4, 2, pick(0, 1), pick(0, 1), pick(300, 3000), 48
 	ps = append(ps, p)
 
 	allW := []string{"begin", "ins", "upd", "commit"}
@@ -156,7 +156,7 @@ func plans(c *core.Ctx, m Modes) []Plan {
 	if !th {
 		p.Kinds = p.Kinds[:4]
 	}
-	p.MaxRuns, p.NoEmpty = pick(2, 3), true
+	p.MaxRuns, p.NoEmpty = 2, true
 	p.MaxLeaves, p.MaxSwitches = 2, pick(1, 2)
 	p.GapSet = []int{2, 4}
 	p.MaxBlocks, p.MaxEvents, p.MaxStops, p.MaxCatch, p.Replay = 5, 2, 0, 1, pick(250, 3000)
@@ -166,7 +166,7 @@ func plans(c *core.Ctx, m Modes) []Plan {
 	p.Name = "gap"
 	p.Kinds = []Ev{ks0, co0, ks(1, 5, 3, 2), ks(2, 6, 4, 2)}
 	p.GapSet, p.MaxRuns = []int{2, 3, 4, 7}, 3
-	p.MaxBlocks, p.MaxEvents, p.MaxStops, p.MaxIdle, p.MaxCatch, p.Replay = pick(4, 5), 2, pick(0, 1), 1, pick(0, 1), pick(200, 2500)
+	p.MaxBlocks, p.MaxEvents, p.MaxStops, p.MaxIdle, p.MaxCatch, p.Replay = pick(4, 5), 2, 0, 1, pick(0, 1), pick(200, 2500)
 	ps = append(ps, p)
 
 	for _, d := range [][2]int{{1, 0}, {0, 1}, {2, 1}} {
@@ -182,7 +182,7 @@ func plans(c *core.Ctx, m Modes) []Plan {
 		}
 		p.MaxPerBlock, p.Pos = 2, []int{0, 1}
 		p.Faults = cat(fk("crashc"))
-		p.MaxBlocks, p.MaxEvents, p.MaxFaults, p.MaxStops, p.MaxIdle, p.MaxCatch, p.Replay = pick(3, 4), pick(3, 4), 1, 1, 1, pick(0, 1), pick(120, 1500)
+		p.MaxBlocks, p.MaxEvents, p.MaxFaults, p.MaxStops, p.MaxIdle, p.MaxCatch, p.Replay = pick(3, 4), 3, 1, 1, 1, 0, pick(120, 1500)
 		ps = append(ps, p)
 		if !th && d[0] == 0 {
 			break
@@ -210,11 +210,10 @@ func plans(c *core.Ctx, m Modes) []Plan {
 	p.Kinds = []Ev{ks0, co0, ks(1, 5, 3, 2), co(1, 5, 2), ks(2, 6, 4, 2)}
 	p.Faults = cat(fk("err", "ins", "commit"), fk("dropc"), fk("crash"), fk("crashc"), fk("rpcM"), fk("rpcB"))
 	if th {
-		p.MaxPerBlock, p.Pos = 2, []int{0, 1}
 		p.Faults = cat(fk("err", "begin", "ins", "upd", "commit"), fk("drop", "ins"), fk("dropc"), fk("crash"), fk("crashc"), fk("rpcM"), fk("rpcB"), fk("rpcL"))
 	}
 	p.StartFaults = true
-	p.MaxBlocks, p.MaxEvents, p.MaxFaults, p.MaxStops, p.MaxIdle, p.MaxCatch = pick(3, 4), pick(2, 3), pick(1, 2), 1, 0, 1
+	p.MaxBlocks, p.MaxEvents, p.MaxFaults, p.MaxStops, p.MaxIdle, p.MaxCatch = pick(3, 4), 2, 1, 1, 0, 1
 	ps = append(ps, p)
 
 	p = base
